@@ -4,15 +4,19 @@ ENGINES = [
     {"name": "sa", "path": "sa/", "serves_properties": [], "kind_free_text":
      "repository-specific static analysis on Python ast: program model + C3 MRO (model.py), resolved call graph "
      "(callgraph.py), statement CFG with dominators and must-hold guards (cfg.py), def-use term IR (ir.py), "
-     "rational-function normaliser (symexpr.py), effects/sinks (effects.py); one rule module per property (props/)"},
+     "rational-function normaliser (symexpr.py), effects/sinks (effects.py); a program normal form applied before analysis "
+     "(inline.py: extracted helpers inlined, loops over literal object collections unrolled, guard clauses = conditionals, "
+     "one branch polarity) and semantic views (colwrites.py, frames.where_form) so that rules decide what the code does, not how it "
+     "is spelled; one rule module per property (props/)"},
 ]
 
 NOTES = ("All checks are static: they parse /repo/src/elexmodel on every run (no import, no execution of repo code, no "
          "solver). Exit 2 + ANALYSIS-ERROR = the analysis could not decide (anchor vanished, construct not understood); "
-         "that is never reported as a pass or as a violation. Genuine defects found are in known_findings.json: all but one were "
-         "repaired by 'fix:' commits in /repo (entries 'fixed', which suppress nothing); one is open (K1, C01: the classification "
-         "table leaves out non-modelled baseline units; a repair would break two pinned tests) and is printed as KNOWN-FINDING by "
-         "the C01 check at its three call sites. DESIGN.md section 5 has the witnesses.")
+         "that is never reported as a pass or as a violation. Genuine defects found are in known_findings.json: 37 were "
+         "repaired by 'fix:' commits in /repo (entries 'fixed', which suppress nothing); six are open (K1 C01, K2 C08, K3 C07, K4 C16, "
+         "K5 C11, K6 C14: each needs a design decision or would break pinned tests) and are printed as KNOWN-FINDING by their checks, "
+         "which exit 0 and still report any other violation. DESIGN.md section 5 has the witnesses; section 13 the refactoring corpus "
+         "on which every check has to stay silent.")
 
 CLAIMS = {}
 NOT_APPLICABLE = {}
@@ -394,6 +398,10 @@ _AMEND2 = {
     "C18": [("cannot leave old results next to new settings (F26).",
              "cannot leave old results next to new settings (F26), and a run publishes its own results handler on the client only after every model "
              "step has completed, so a request rejected midway leaves no half-filled results for a later summary either (F36).")],
+    "C11": [("grouped by is recovered in all office-class x request configurations,",
+             "grouped by is recovered in all office-class x request configurations - by the parser of that key, whose decision tree is "
+             "evaluated over id shapes (county = second part of a <district>_<county> id, else the first; district = the first) and "
+             "never indexes a part the id may not have,")],
     "C06": [("the ranks are the statement's own formulas;",
              "the ranks are the statement's own formulas; every quotient by a group turnout total is nan_to_num(x / total), so a group with zero "
              "predicted turnout has margin 0, not NaN;")],
